@@ -175,7 +175,7 @@ func (g *GoBackNConn) Send(data []byte) error {
 		sentBytes = 0
 		maxChunk  = g.cfg.maxChunkSize
 	)
-	for sentBytes < len(data) {
+	for {
 		packet := &PacketData{}
 
 		remainingBytes := len(data) - sentBytes
@@ -190,6 +190,12 @@ func (g *GoBackNConn) Send(data []byte) error {
 
 		if err := sendPacket(packet); err != nil {
 			return err
+		}
+
+		// An empty payload is still a message: it is sent as a single
+		// final chunk without payload.
+		if packet.FinalChunk {
+			break
 		}
 	}
 
